@@ -18,11 +18,18 @@
    1..8 channels, width 8/12/16/20/24, block of 1..32767 samples in range: the bytes of the frame
    encode_frame returns, followed by anything, are decoded by the independent decoder to exactly the
    channels of the block (all header codes, channel assignment, CRCs and padding included).
-   PARTIAL: the stream container (marker, STREAMINFO, frame sequence and numbering, interleaving) is checked
-   on every run by executing the extracted decoder on the implementation's bytes (DEC oracle), not proved. *)
+   (f) stream end to end (C01_stream_end_to_end): for every estimator, MD5 oracle returning 16 bytes,
+   configuration with max parameter <= 14, rate 1..2^20-1, 1..8 channels, width 8/12/16/20/24, block size
+   16..32767 and every whole number (< 2^36) of inter-channel samples: the bytes encode_stream_bytes returns
+   (marker, STREAMINFO, every frame) are accepted by the independent strict decoder, which returns a
+   STREAMINFO with exactly the block size, rate, channels, width, total and MD5 the encoder was given, and
+   exactly the input samples, interleaved.  The remaining hypotheses are the named ones on the estimator
+   oracle (block_hyps for every block, as in (e)).
+   MODELLED, NOT PROVED: that the Rust code is the model (checked on every run by the correspondence streams
+   ENC/DLV/DEC, which also execute the extracted decoder on the implementation's bytes). *)
 From FV Require Import Model.Base Model.Sink Model.Codes Model.Rice Model.Predict Model.Component Model.Encoder
   Model.Flac Model.Ctor Proofs.Lossless Proofs.BitRead Proofs.BitWrite Proofs.CtorP Proofs.ParseResidual
-  Proofs.ParseSubframe Proofs.DecodeSubframe Proofs.EncoderVerifies Proofs.CountBits Proofs.DecodeFrame Proofs.EncodeFrameE2E.
+  Proofs.ParseSubframe Proofs.DecodeSubframe Proofs.EncoderVerifies Proofs.CountBits Proofs.DecodeFrame Proofs.EncodeFrameE2E Proofs.DecodeStream.
 Local Open Scope Z_scope.
 
 (* whatever the estimators answer, the subframe the encoder returns decodes to the block it was
@@ -193,3 +200,19 @@ Theorem C01_frame_end_to_end :
     exists ctag, read_frame si (bytes ++ rest) = Some (mkFH (N.of_nat n) ctag number (rate mod 2 ^ 32) bps, chans channels block, rest).
 Proof. exact frame_end_to_end. Qed.
 Print Assumptions C01_frame_end_to_end.
+
+(* the whole stream, through the independent strict decoder *)
+Theorem C01_stream_end_to_end :
+  forall (ent : N -> N -> N -> N) (qlpc : N -> N -> qparams) (md5 : list N -> list N)
+         cfg rate channels bps bs samples bytes (total : nat),
+    encode_stream_bytes ent qlpc md5 cfg rate channels bps bs samples = Ok bytes ->
+    cfg_max_parameter cfg <= 14 -> In bps [8; 12; 16; 20; 24] -> 1 <= rate < 2 ^ 20 -> 1 <= channels <= 8 ->
+    16 <= bs <= Generated.c_MAX_BLOCK_SIZE ->
+    length samples = (total * N.to_nat channels)%nat -> N.of_nat total < 2 ^ 36 ->
+    length (md5 (md5_input bps samples)) = 16%nat -> Forall (fun x => x < 256) (md5 (md5_input bps samples)) ->
+    (forall j b, nth_error (chunks (N.to_nat (bs * channels)) samples) j = Some b ->
+                 block_hyps qlpc cfg (N.of_nat j) channels bps b (length b / N.to_nat channels)) ->
+    exists minf maxf,
+      decode_stream bytes = Some (mkSinfo bs bs minf maxf rate channels bps (N.of_nat total) (md5 (md5_input bps samples)), samples).
+Proof. exact stream_end_to_end. Qed.
+Print Assumptions C01_stream_end_to_end.
